@@ -36,7 +36,17 @@ ASSUMPTIONS = ["version expressions in generated tables are well formed, so Eups
                "build-time setup and exact re-setup are one command each, in a fresh process, default product disabled",
                "conflict-free = every request in the closure resolves to the one build version of its product (by construction of the 'cf' stream)"]
 
-NW = 6
+# what the models mirror (fingerprints/C17.json): the expander and its callers; since round 3 also the table reader that the
+# composed model (Expand then TableParse/Cond) runs on the expanded text, and Action.processArgs (`toPin`)
+MIRRORS = [("python/eups/table.py", "expandTableFile"), ("python/eups/table.py", "Table.actions"), ("python/eups/table.py", "Table._read"),
+           ("python/eups/table.py", "Table._rewrite"), ("python/eups/table.py", "Table.__init__"), ("python/eups/table.py", "Action.__init__"),
+           ("python/eups/table.py", "Action.processArgs"), ("python/eups/VersionParser.py", "*"),
+           ("python/eups/app.py", "expandTableFile"), ("python/eups/app.py", "getDependencies"),
+           ("python/eups/Eups.py", "Eups.getDependentProducts"), ("python/eups/Eups.py", "Eups.selectVRO"),
+           ("python/eups/Eups.py", "Eups.makeVroExact"), ("python/eups/Eups.py", "Eups.findSetupProduct"), ("python/eups/Eups.py", "Eups.setup"),
+           ("python/eups/cmd.py", "ExpandtableCmd.execute")]
+
+NW = 4
 
 
 # ---- children: the real code -------------------------------------------------------------------------
@@ -194,7 +204,7 @@ def child_expand(env, path, opts, names):
 
         eups.getDependencies, eups.getSetupVersion, E.findSetupProduct = w_deps, w_sv, w_fsp
         out = io.StringIO()
-        res = {"answers": ans}
+        res = {"answers": ans, "flavor": E.flavor}
         try:
             with open(path) as ifd:
                 if opts.get("recurse", True):
@@ -266,6 +276,22 @@ def child_actions(env, paths):
             except Exception as ex:  # noqa
                 outs.append("EXC:" + type(ex).__name__)
     return outs
+
+
+def child_exact_actions(env, path):
+    """The real table parser on the expanded table in exact mode: what `Table(expanded).actions(flavor, ["exact"])` returns."""
+    from eups.table import Table
+    os.environ.clear()
+    os.environ.update(env)
+    with _quiet(), contextlib.redirect_stdout(io.StringIO()):
+        E = common.new_eups()
+        try:
+            acts = Table(path).actions(E.flavor, setupType=["exact"])
+            return {"flavor": E.flavor,
+                    "acts": [{"cmd": str(a.cmd), "args": [str(x) for x in a.args], "extra": {k: a.extra[k] for k in sorted(a.extra)}}
+                             for a in acts]}
+        except Exception as ex:  # noqa
+            return {"flavor": E.flavor, "acts": "EXC:" + type(ex).__name__}
 
 
 # ---- one case on the real code --------------------------------------------------------------------------
@@ -341,6 +367,7 @@ def run_case(w, case):
         with open(xp, "w") as f:
             f.write(main["out"])
         res["actions"] = call(child_actions, w.base, [tpath, xp])
+        res["exact_actions"] = call(child_exact_actions, w.base, xp)
         # evolution, expanded table in place of the original, exact setup from a clean environment
         L.evolve(w.stack, w.ud, case)
         with open(tpath, "w") as f:
@@ -373,7 +400,7 @@ def model_request(exp):
     return {"m": "c17", "op": "expand", "lines": split_lines(exp["text"]), "pins": [[k, v] for k, v in o["pins"].items()],
             "toplevel": o["toplevel"], "force": o["force"], "expandVersions": o["expandVersions"],
             "addExactBlock": o["addExactBlock"], "recurse": o.get("recurse", True),
-            "spv": a["spv"], "sv": a["sv"], "deps": a["deps"]}
+            "spv": a["spv"], "sv": a["sv"], "deps": a["deps"], "flavor": exp.get("flavor", "Linux64")}
 
 
 def canon_lines(ls):
@@ -494,6 +521,31 @@ def oracle_parser(case, res):
                 yield ("keeps_constraints", d)
 
 
+def oracle_exact_actions(case, res):
+    """exact_actions (model-free, real parser): in exact mode the expanded table's setup commands are -j pins of build-time
+    records (besides the `eups` / --external lines of the final block), and everything that is not a setup command of the
+    original table is still there, in order -- yields details."""
+    xa = res.get("exact_actions")
+    acts = res.get("actions")
+    if not isinstance(xa, dict) or not isinstance(acts, list) or len(acts) != 2 or isinstance(acts[0], str):
+        return
+    if isinstance(xa.get("acts"), str):
+        yield "the expanded table does not parse in exact mode: %s" % xa["acts"]
+        return
+    built, pins = res["built"], case["opts"]["pins"]
+    is_setup = lambda c: c == "setupRequired"  # noqa
+    for a in xa["acts"]:
+        if not is_setup(a["cmd"]) or "--external" in a["args"] or (a["args"] and a["args"][0] == "eups"):
+            continue
+        ar = a["args"]
+        if not (len(ar) == 3 and ar[1] == "-j" and (built.get(ar[0]) == ar[2] or pins.get(ar[0]) == ar[2])):
+            yield "exact mode applies the setup command %r, which is not a -j pin of a build-time record" % (ar,)
+    others_x = [[a["cmd"], a["args"]] for a in xa["acts"] if not is_setup(a["cmd"])]
+    others_o = [[a[0], a[1]] for a in acts[0] if not is_setup(a[0])]
+    if others_x != others_o:
+        yield "commands other than setup commands in exact mode: %r; in the original table: %r" % (others_x, others_o)
+
+
 def build_table(case, n, v):
     for dn, dv, lines in case["decl"]:
         if dn == n and dv == v:
@@ -598,6 +650,9 @@ def oracle_case(case, res):
     for clause, detail in oracle_parser(case, res):
         # D4 (table parser, empty branch): `if (type == exact) { } else { X }` drops X in inexact mode, applies it in exact mode
         yield (clause, "D4" if empty_exact else None, detail, 0)
+    if "exact" not in main["text"]:
+        for detail in oracle_exact_actions(case, res):
+            yield ("exact_actions", "D4" if empty_exact else None, detail, 0)
     if cf:
         if res.get("exact_ok") is not True or res.get("exact_records") != built:
             xr = res.get("exact_records") or {}
@@ -712,8 +767,9 @@ def evaluate(ctx, cases):
                 where.append((ci, ei))
                 reqs.append(model_request(exp))
     answers = ctx.lean.ask_many(reqs)
-    models, hyps = {}, {}
+    models, hyps, raw = {}, {}, {}
     for (ci, ei), a in zip(where, answers):
+        raw[(ci, ei)] = a
         models[(ci, ei)] = model_view(a)
         hyps[(ci, ei)] = model_hyps(a)
         st = same_text(results[ci]["exps"][ei], a)
@@ -793,6 +849,25 @@ def evaluate(ctx, cases):
                     ctx.hist("cf_closure_with_unsetup_line_checked")
             else:
                 ctx.hist("arb_exact_resetup=%s" % ("same" if r.get("exact_records") == r["built"] and r.get("exact_ok") is True else "differs"))
+            # the expanded table read in exact mode: real parser vs the composed model (Expand then TableParse), and the
+            # hypotheses of C17_exact_actions_text / C17_exact_setup_actions evaluated on the items of the expansion
+            xa, ma = r.get("exact_actions"), (raw.get((ci, 0)) or {}).get("exact") if isinstance(raw.get((ci, 0)), dict) else None
+            if isinstance(xa, dict) and isinstance(ma, dict) and model_main == impl_view(main):
+                if xa.get("flavor") != main.get("flavor"):
+                    raise common.InfraError("flavor differs between the children: %r %r" % (xa.get("flavor"), main.get("flavor")))
+                ctx.hist("hyp_itemOK=%s" % ma["itemOK"])
+                ctx.hist("hyp_inert=%s" % ma["inert"])
+                if not ma["flavorOK"]:
+                    raise common.InfraError("the flavor %r is one of the evaluator's special tokens" % (xa.get("flavor"),))
+                iv2 = xa["acts"] if not isinstance(xa["acts"], str) else "error"
+                if iv2 != ma["direct"]:
+                    ctx.disagree("exact_mode_actions", {"case": inp, "expansion": 0}, iv2, ma["direct"])
+                noex = (hyps.get((ci, 0)) or {}).get("noExactLine")
+                if ma["itemOK"] and noex and c["opts"]["addExactBlock"]:
+                    ctx.hist("exact_actions_theorem_instance")
+                    if ma["acts"] != ma["direct"]:
+                        # C17_exact_actions_text says this cannot happen: the driver and the theorem talk about different things
+                        raise common.InfraError("C17_exact_actions_text contradicted by the driver: %r vs %r" % (ma["acts"], ma["direct"]))
             if r.get("exact_type") is not None and "exact" not in r["exact_type"]:
                 raise common.InfraError("the re-setup did not run in exact mode: setupType=%r" % (r["exact_type"],))
         for clause, cls, detail, ei in oracle_case(c, r):
@@ -955,9 +1030,15 @@ def replay(ctx, rp):
     if r.get("build_ok") is True:
         exp = r["exps"][ei]
         iv = impl_view(exp)
-        mv = model_view(ctx.lean.ask(model_request(exp))) if "answers" in exp else None
-        out.update(impl_output=iv, model_output=mv, agree=(iv == mv), exact_records=r.get("exact_records"),
-                   exact_ok=r.get("exact_ok"), actions=r.get("actions"))
+        a = ctx.lean.ask(model_request(exp)) if "answers" in exp else None
+        mv = model_view(a) if a is not None else None
+        xa, ma = r.get("exact_actions"), (a.get("exact") if isinstance(a, dict) else None)
+        xagree = True
+        if ei == 0 and isinstance(xa, dict) and isinstance(ma, dict) and iv == mv:
+            xagree = (xa["acts"] if not isinstance(xa["acts"], str) else "error") == ma["direct"]
+        out.update(impl_output=iv, model_output=mv, agree=(iv == mv and xagree), exact_records=r.get("exact_records"),
+                   exact_ok=r.get("exact_ok"), actions=r.get("actions"), exact_actions=xa,
+                   model_exact_actions=(ma or {}).get("direct"))
         fails = [{"clause": cl, "class": k, "detail": d, "expansion": i} for cl, k, d, i in oracle_case(case, r)]
     out["fails"] = fails
     return out
